@@ -141,4 +141,4 @@ mod tests {
 
 #[cfg(kani)]
 #[path = "/verif/hooks/core/io.rs"]
-mod verif_hooks;
+pub(crate) mod verif_hooks;
